@@ -1,6 +1,7 @@
 package main
 
 import (
+	"bytes"
 	"context"
 	"encoding/binary"
 	"encoding/json"
@@ -898,6 +899,54 @@ func fuseroReplay(args []string) error {
 					m.doRead(stc)
 				default:
 					panic("unknown op " + stc.Op)
+				}
+			}) {
+				return
+			}
+		}
+		// a bundle of one thousand entries or more: every file is resolved, stat'ed and its first bytes are read
+		// (the program visits only a few of them)
+		if len(b.Files) >= 1000 {
+			m.step, m.op = len(b.Prog), "sweep"
+			if vutil.Guard(r, len(b.Prog), "sweep", m.replay(), func() {
+				for _, f := range b.Files {
+					r.Steps++
+					ino, ok := m.walk(f.P)
+					if !ok {
+						continue
+					}
+					want := m.contents[frKey(f.P)]
+					ga := &fuseops.GetInodeAttributesOp{Inode: ino}
+					if err := m.fsys.GetInodeAttributes(context.Background(), ga); err != nil {
+						m.bad("fusero/attr-error", "attributes", err.Error(), fmt.Sprintf("sweep: getattr(%q) fails", frKey(f.P)))
+						continue
+					}
+					if frKind(ga.Attributes) != "file" || ga.Attributes.Size != uint64(len(want)) {
+						m.bad("fusero/attr-size", len(want), ga.Attributes.Size, fmt.Sprintf("sweep: getattr(%q)", frKey(f.P)))
+					}
+					n := len(want)
+					if n > 16 {
+						n = 16
+					}
+					oo := &fuseops.OpenFileOp{Inode: ino}
+					if err := m.fsys.OpenFile(context.Background(), oo); err != nil {
+						m.bad("fusero/open-error", "ok", err.Error(), fmt.Sprintf("sweep: open(%q) fails", frKey(f.P)))
+						continue
+					}
+					ro := &fuseops.ReadFileOp{Inode: ino, Handle: oo.Handle, Offset: 0, Size: 16, Dst: make([]byte, 16)}
+					err := m.fsys.ReadFile(context.Background(), ro)
+					var got []byte
+					if len(ro.Data) > 0 {
+						for _, d := range ro.Data {
+							got = append(got, d...)
+						}
+					} else if ro.BytesRead >= 0 && ro.BytesRead <= len(ro.Dst) {
+						got = ro.Dst[:ro.BytesRead]
+					}
+					if err != nil || !bytes.Equal(got, want[:n]) {
+						m.bad("fusero/read-bytes", n, len(got), fmt.Sprintf("sweep: read(%q, 0, 16) of a file of %d bytes: err=%v", frKey(f.P), len(want), err))
+					}
+					_ = m.fsys.ReleaseFileHandle(context.Background(), &fuseops.ReleaseFileHandleOp{Handle: oo.Handle})
 				}
 			}) {
 				return
